@@ -146,7 +146,7 @@ class Baton:
         with self.cv:
             while True:
                 while self.turn is not None or any(t not in self.parked and t not in self.done for t in tids):
-                    if not self.cv.wait(timeout=20):
+                    if not self.cv.wait(timeout=120):
                         raise HarnessError("thread scheduler: a caller thread neither parked nor finished")
                 live = sorted(t for t in tids if t not in self.done)
                 if not live:
